@@ -19,8 +19,13 @@ from concurrent.futures import ThreadPoolExecutor
 from . import core, ucore
 from .core import Scratch, ToolError, Verdict, log
 
-INT_POOL = {"max_width": [80, 120], "tab_spaces": [2, 8], "fn_call_width": [40, 90, 150],
-            "chain_width": [30, 130], "array_width": [20]}
+INT_POOL = {"max_width": [80, 120, 100], "tab_spaces": [2, 8, 4], "fn_call_width": [40, 90, 150, 60],
+            "chain_width": [30, 130, 60, 100], "array_width": [20, 60]}
+# the granular widths and their defaults: an explicit value that EQUALS the value in effect is
+# still explicit (it must survive use_small_heuristics / max_width given next to it)
+WIDTH_DEFAULTS = {"fn_call_width": 60, "attr_fn_like_width": 70, "struct_lit_width": 18,
+                  "struct_variant_width": 35, "array_width": 60, "chain_width": 60,
+                  "single_line_if_else_max_width": 50, "single_line_let_else_max_width": 50}
 STR_POOL = {"hard_tabs": ["true"], "style_edition": ["2015", "2024", "2021"],
             "edition": ["2018", "2024"], "version": ["One", "Two"],
             "use_small_heuristics": ["Max", "Off"], "newline_style": ["Unix"],
@@ -241,6 +246,56 @@ def run(tier, seed, replay=None):
             records.append(rec)
             rmeta.append(("sweep", (name, val), {"file": a.get(name), "cli": (b or {}).get(name),
                                                  "api": (c or {}).get(name)}))
+        # ---- pairs: a granular width at its default next to use_small_heuristics / max_width ----
+        pairs = []
+        for wname, dflt in WIDTH_DEFAULTS.items():
+            for other in (("use_small_heuristics", "Max"), ("use_small_heuristics", "Off"),
+                          ("max_width", "150"), ("max_width", "50")):
+                pairs.append((wname, dflt, other))
+        api2 = ucore.run_jobs([{"id": i, "src": "", "opts": {w: d, o[0]: (int(o[1]) if o[1].isdigit()
+                                                                         else o[1])},
+                                "want": ["config_toml"]} for i, (w, d, o) in enumerate(pairs)], base)
+
+        def pair_one(t):
+            i, (w, dflt, (on, ov)) = t
+            d = base / f"q{i}"
+            for x in ("home", "xdg", "f", "c"):
+                (d / x).mkdir(parents=True)
+            lit = ov if ov.isdigit() else f'"{ov}"'
+            (d / "f" / "rustfmt.toml").write_text(f"{on} = {lit}\n{w} = {dflt}\n")
+            for x in ("f", "c"):
+                (d / x / "file.rs").write_text("fn main() {}\n")
+            a, _ = print_config(rustfmt, d, d / "f" / "file.rs", [])
+            b, _ = print_config(rustfmt, d, d / "c" / "file.rs", ["--config", f"{on}={ov},{w}={dflt}"])
+            b2, _ = print_config(rustfmt, d, d / "c" / "file.rs", ["--config", f"{w}={dflt},{on}={ov}"])
+            shutil.rmtree(d, ignore_errors=True)
+            return a, b, b2
+        with ThreadPoolExecutor(max_workers=12) as ex:
+            pw = list(ex.map(pair_one, enumerate(pairs)))
+        none_ = {"present": False, "ints": [], "strs": []}
+        for (w, dflt, (on, ov)), (a, b, b2), ap in zip(pairs, pw, api2):
+            if a is None:
+                continue
+            try:
+                c = tomllib.loads(ap.get("config_toml", "")) if ap.get("config_toml") else None
+            except Exception:
+                c = None
+            want = min(dflt, int(ov)) if on == "max_width" else dflt
+            agree = a == b and a == b2 and (c is None or a == c) and a.get(w) == want
+            plain = {"present": True, "ints": [[w, dflt]], "strs": []}
+            if ov.isdigit():
+                plain["ints"].append([on, int(ov)])
+            else:
+                plain["strs"].append([on, ov])
+            rec = {"kind": "print", "chain": [{"dotted": none_, "plain": plain}], "home": none_,
+                   "confdir": none_, "cpath": none_,
+                   "cli": {"pairs": {"present": True, "ints": [], "strs": []}, "edition": "",
+                           "style_edition": ""},
+                   "obs": split_obs(a), "roundtrip_ok": True, "sources_agree": agree}
+            records.append(rec)
+            rmeta.append(("sweep", (f"{w}={dflt}", f"{on}={ov}"),
+                          {"file": a.get(w), "cli": (b or {}).get(w), "cli_rev": (b2 or {}).get(w),
+                           "api": (c or {}).get(w)}))
         # ---- probes: files under nested configs formatted in one invocation, every order ----
         probe_src = "fn p() {\nif true {\nx();\n}\n}\n"
         for order in (["o", "i"], ["i", "o"], ["o", "i", "s"], ["s", "o", "i"], ["i", "s", "o"]):
@@ -286,7 +341,8 @@ def run(tier, seed, replay=None):
         elif kind == "sweep":
             v.violation(f"sweep:{a[0]}={a[1]}:{','.join(sorted(f['fails']))}",
                         f"{f['fails']} for option {a[0]}={a[1]}: via file {b['file']!r}, via --config "
-                        f"{b['cli']!r}, via API {b['api']!r}", {"option": a, "values": b})
+                        f"{b['cli']!r}{' / ' + repr(b['cli_rev']) if 'cli_rev' in b else ''}, via API "
+                        f"{b['api']!r}", {"option": a, "values": b})
         else:
             v.violation(f"probe:{a[0]}:{a[1]}:{','.join(sorted(f['fails']))}",
                         f"file '{a[1]}' formatted in the invocation order {a[0]} was indented with the "
